@@ -126,6 +126,11 @@ class ProcessWorker(Worker):
                     self._result = self._comms.parent_end.get()
                 except queue.Empty:
                     break
+                except Exception:
+                    # the child was killed part-way through sending its result, or what it sent cannot be rebuilt in this process
+                    logger.exception('Could not receive the final result from {}', self)
+                    self._result = None
+                    break
 
             if self._result is None:
                 self._result = (False, None)
